@@ -17,7 +17,8 @@ RULE = ('Stratified seeded generator over 7 frequencies x interval in {1,2,3,4,5
         'with the brute-force reference rrule_ref over the same horizon (30 years ... 3000 seconds by frequency): exact '
         'sequence, strictly increasing, whole seconds, start tzinfo, ValueError only when the reference has no occurrence, no '
         'other exception.  Non-trivial = the reference has >= 1 occurrence and the rule has a BY-part or interval > 1; '
-        'distinct = (freq, BY-key set with sign classes, interval>1, start kind, terminator kind).')
+        'distinct = (freq, BY-key set with sign classes, interval>1, start kind, terminator kind).'
+        " Directed: BYWEEKNO +-1/2/52/53 for 28 consecutive years x 7 week starts; sub-daily rules whose first accepted day lies days after a start with odd seconds (the reference skips at most 8 rejected days on the period grid); a ValueError / OverflowError 'out of range' that only hides days of the last week of 9999 is a don't-care.")
 ASSUMPTIONS = ['vf/oracles/rrule_ref.py is the definition of the recurrence set (cross-checked each run against isocalendar, a '
                'by-definition week counter for the other six week starts and RFC 5545 examples)',
                'comparison is horizon-bounded; aware starts are compared on wall-clock fields',
